@@ -37,13 +37,15 @@ BOUNDS = (
     "(class,type) (71 + generic/NONE/CH) on every buffer of <= 1 octet and every <= 2 (quick) / "
     "<= 3 (thorough) octet buffer over that alphabet, plus for ~115 valid sample rdatas every "
     "prefix, every single-octet deletion/insertion and every single-octet substitution by the "
-    "alphabet +-1 (thorough: by all 256 values), with and without an origin and behind a "
+    "alphabet (quick: one sample per type, sparse positions; thorough: all 256 values in the first "
+    "32 octets, 34 boundary values up to octet 96), with and without an origin and behind a "
     "compression-target prefix; edns.option_from_wire likewise for all option codes; "
     "message.from_wire on header x (16 count patterns) x every tail of <= 1 octet (thorough: <= 2 "
-    "octets for 4 patterns) x all 64 boolean option combinations (quick: 8), and on 9 "
+    "octets for 4 patterns) x all 64 boolean option combinations (quick: 8), and on 10 "
     "hand-encoded base messages (query, compressed response with OPT, update, TSIG, AXFR, "
-    "notify, unknown opcode, TC, RRSIG) every prefix and every single-octet substitution "
-    "(alphabet; thorough all 256) in strict and continue_on_error mode; text: every string of "
+    "notify, unknown opcode, TC, URI/TXT/CAA, RRSIG) every prefix and every single-octet substitution "
+    "(quick: {0,1,63,64,128,192,255}; thorough: all 256 values in the first 64 octets, 34 boundary "
+    "values beyond) in strict and continue_on_error mode; text: every string of "
     "<= 3 characters over the 24-character syntax alphabet to name.from_text (str, bytes), "
     "from_unicode, ttl.from_text, zone.from_text (3 contexts), read_rrsets, message.from_text "
     "(3 contexts), the tokenizer, and to rdata.from_text of 8 representative types (quick: <= 2); "
@@ -51,7 +53,7 @@ BOUNDS = (
     "single-character substitution (24 alphabet) of each valid sample record (thorough; quick: "
     "samples <= 24 chars).  SEEDED (VERIF_SEED): structured name buffers with pointer chains "
     "(quick 4 000 / thorough 150 000), structurally plausible messages with lying counts, "
-    "RDLENGTHs, pointers, misplaced OPT/TSIG (quick 2 500 / thorough 120 000, each under strict, "
+    "RDLENGTHs, pointers, misplaced OPT/TSIG (quick 2 500 / thorough 80 000, each under strict, "
     "continue_on_error and one random option set incl. keyring none/False/dict/Key, origin, xfr, "
     "multi), token-level mutations of every sample record with a pool of ~170 boundary tokens "
     "(quick 12 / thorough 400 per sample), zone files assembled from ~130 boundary lines and "
@@ -283,7 +285,11 @@ def _wire_messages(C):
         for p in G.truncations(wire):
             _both(C, p, hint)
             C.case("message.from_wire", {"wire": p, "opts": dict(hint, raise_on_truncation=True, continue_on_error=True)})
-        for m, pos in G.substitutions(wire, values, neighbours=not R.quick):
+        if R.quick:
+            subs = G.substitutions(wire, values, neighbours=False)
+        else:
+            subs = itertools.chain(G.substitutions(wire, values, range(0, 64)), G.substitutions(wire, G.B32, range(64, len(wire))))
+        for m, pos in subs:
             _both(C, m, hint)
         if not R.quick:
             for m in G.indels(wire, [0, 0xC0, 0xFF]):
@@ -292,7 +298,7 @@ def _wire_messages(C):
     by_type = collections.defaultdict(list)
     for c, t, w in G.sample_wires():
         by_type[(c, t)].append((c, t, w))
-    n = 2500 if R.quick else 120000
+    n = 2500 if R.quick else 80000
     for i in range(n):
         if C.stop(0.70):
             R.note(f"wire_message: seeded part cut by budget at {i}/{n}")
@@ -374,7 +380,7 @@ def _text_ttl(C):
 
     alpha = ["0", "1", "9", "w", "d", "h", "m", "s", "W", "S", "x", "-", "+", " ", ".", "\u0661", "_"]
     for n in range(0, 5 if R.quick else 6):
-        for t in itertools.product(alpha, repeat=n):
+        for t in itertools.product(alpha if n < 5 else alpha[:4] + alpha[5:8] + alpha[10:14] + alpha[15:16], repeat=n):
             one("".join(t), sample=(n == 3 and t[0] == "1" and t[1] == "w"))
     for s in G.strings_upto(3):
         one(s)
@@ -455,6 +461,7 @@ def _text_zones(C):
             C.case("zone.from_text", {"text": ln, "relativize": rel, "check_origin": True})
             C.case("zone.from_text", {"text": soa + "@ NS ns\n" + ln + "\n", "relativize": rel, "check_origin": True, "filename": "zone.db"})
             C.case("zone.from_text", {"text": ln + "\n", "origin": None, "relativize": rel})
+            C.case("zone.from_text", {"text": ln + "\n", "origin": None, "relativize": rel, "check_origin": True})
             C.case("zone.from_text", {"text": ln + "\n", "allow_directives": False, "relativize": rel})
             C.case("zone.from_text", {"text": ln + "\n", "allow_directives": ["$TTL"], "relativize": rel})
         for pos in (3, len(base_lines)):
